@@ -143,6 +143,18 @@ def run_case(c, rng, props):
     """returns (problems, stats)"""
     problems = []
     stats = {"raised": 0}
+    if "C10" in props:
+        # nothing the caller owns is written: run on read-only copies and compare afterwards
+        before = [onp.array(a, copy=True) if isinstance(a, onp.ndarray) else a for a in c.args]
+        ro = []
+        for a in c.args:
+            if isinstance(a, onp.ndarray):
+                b = onp.array(a, copy=True)
+                b.setflags(write=False)
+                ro.append(b)
+            else:
+                ro.append(a)
+        c = Case(c.prim, c.tag, c.f, ro, c.diff, c.exact, modes=c.modes)
     for k in c.diff:
         x = c.args[k]
 
@@ -174,9 +186,12 @@ def run_case(c, rng, props):
                 vj2 = vjp(gg)
                 if not (onp.shape(vj2) == onp.shape(vj) and onp.array_equal(onp.asarray(vj2), onp.asarray(vj), equal_nan=True)):
                     problems.append(("C01", k, "calling the same VJP function twice gives two different results"))
+                    problems.append(("C10", k, "calling the same VJP function twice gives two different results"))
             except Exception as ex:
                 stats["raised"] += 1
                 vj = None
+                if "C10" in props and "read-only" in str(ex):
+                    problems.append(("C10", k, "reverse mode wrote into an array the caller owns: %s" % str(ex)[:80]))
                 if not isinstance(ex, (NotImplementedError, TypeError, ValueError, AssertionError, IndexError,
                                        KeyError, NameError, AttributeError)):
                     problems.append(("C01", k, "reverse mode raised an unexpected %s: %s" % (type(ex).__name__, str(ex)[:80])))
@@ -216,9 +231,12 @@ def run_case(c, rng, props):
                 val2, jv2 = make_jvp(fk)(x)(vv)
                 if not (onp.shape(jv2) == onp.shape(jv) and onp.array_equal(onp.asarray(jv2), onp.asarray(jv), equal_nan=True)):
                     problems.append(("C02", k, "evaluating the same JVP twice gives two different results"))
+                    problems.append(("C10", k, "evaluating the same JVP twice gives two different results"))
             except Exception as ex:
                 stats["raised"] += 1
                 jv = None
+                if "C10" in props and "read-only" in str(ex):
+                    problems.append(("C10", k, "forward mode wrote into an array the caller owns: %s" % str(ex)[:80]))
                 if not isinstance(ex, (NotImplementedError, TypeError, ValueError, AssertionError, IndexError,
                                        KeyError, NameError, AttributeError)):
                     problems.append(("C02", k, "forward mode raised an unexpected %s" % type(ex).__name__))
